@@ -118,6 +118,10 @@ def build(case):
     if case["mode"] == "heatmap":
         coords["x"] = np.round(1.0 + 0.5 * np.arange(nx), 3).tolist()
         coords["yy"] = np.round(2.0 + 0.25 * np.arange(max(2, nx - 1)), 3).tolist()
+        if case["dseed"] % 2:
+            # unevenly spaced mesh coordinates (a logarithmic sweep, hand-picked values)
+            coords["x"] = np.round(1.0 + np.cumsum(rng.uniform(0.1, 2.0, nx)), 3).tolist()
+            coords["yy"] = np.round(2.0 * 1.7 ** np.arange(max(2, nx - 1)), 3).tolist()
         alld = dims + ["yy", "x"]
     else:
         coords["x"] = np.round(1.0 + 0.5 * np.arange(nx), 3).tolist()
